@@ -2,6 +2,8 @@
 //! library built from /repo's working tree and records traces for TLC to validate.
 
 mod c16;
+mod c17;
+mod plugins;
 mod msgcheck;
 mod registry;
 mod tok;
@@ -17,6 +19,7 @@ fn main() {
         "tokens" => c16::run_tokens(rest),
         "tracker" => c16::run_tracker(rest),
         "split" => c16::run_split(rest),
+        "classify" => c17::run(rest),
         "parse1" => {
             // parse one full message (file) as type --mt and print the outcome
             let mt = util::arg(rest, "--mt").expect("--mt");
